@@ -274,7 +274,7 @@ func (t *Tr) applyContract(ct *Contract, key string, args []ssa.Value, res ssa.V
 				if a.Kind == aStruct || a.Kind == aArray {
 					env.vars[fv.Name()] = Val{Ty: pt.Elem(), Loc: a}
 				} else {
-					env.vars[fv.Name()] = Val{T: t.load(t.cur, a), Ty: pt.Elem()}
+					env.vars[fv.Name()] = Val{Ty: pt.Elem(), Cell: a}
 				}
 			}
 		}
